@@ -1,0 +1,22 @@
+//go:build verif
+
+package grammar
+
+// Hooks for the C08/C09 verification harness: the unexported sub-steps of ChomskyNormalForm
+// and the suffix lists used by AddNewNonTerminal. Compiled only under the verif build tag.
+
+// VerifEliminateStartSymbolFromRight exposes the START step of ChomskyNormalForm.
+func VerifEliminateStartSymbolFromRight(g *CFG) *CFG { return g.eliminateStartSymbolFromRight() }
+
+// VerifEliminateNonSolitaryTerminals exposes the TERM step of ChomskyNormalForm.
+func VerifEliminateNonSolitaryTerminals(g *CFG) *CFG { return g.eliminateNonSolitaryTerminals() }
+
+// VerifEliminateNonBinaryProductions exposes the BIN step of ChomskyNormalForm.
+func VerifEliminateNonBinaryProductions(g *CFG) *CFG { return g.eliminateNonBinaryProductions() }
+
+// VerifSuffixes returns copies of the prime, alphabetic and numeric suffix lists.
+func VerifSuffixes() (prime, alphabetic, numeric []string) {
+	return append([]string(nil), primeSuffixes...),
+		append([]string(nil), alphabeticSuffixes...),
+		append([]string(nil), numericSuffixes...)
+}
